@@ -354,32 +354,52 @@ def _phase2(ctx: Ctx, fi: FuncInfo, loop: ast.While, items: str,
                witness=None if ok else {
                    "store": ast.unparse(st),
                    "ledger_variable": "current_area"})
-        # the cut limit
+        # the slack budget: removed area = cut_position * other must leave
+        # more than (min_bins - 1) * bin_area
         lim = envf.vars.get("cut_modulus")
-        ok_l = False
+        cp = envf.vars.get("cut_position")
         touched_f = sorted({(arr, idx[0]) for (arr, idx) in envf.stores
                             if len(idx) == 1 and
                             (arr, idx) not in envf_before.stores}, key=repr)
-        if len(touched_f) == 1 and isinstance(lim, Poly):
+        ok_l = False
+        detail_l = "cut limit not recognised"
+        if len(touched_f) == 1 and isinstance(lim, Poly) and isinstance(
+                cp, Poly):
             X, d = touched_f[0]
-            o = Poly.const(1) - d
-            other = Poly.atom(("cell", X, (o,)))
-            size = Poly.atom(("cell", X, (d,)))
+            other = Poly.atom(("cell", X, (Poly.const(1) - d,)))
+            d1, c2 = _budget_margin(lim, other, area0)
             top_env = _top_env(BlockEval(ctx, fi), body, loop)
             mn = top_env.vars.get("min_area")
-            minv = Poly.var("min_area") if not isinstance(mn, Poly) else mn
-            del minv
-            slack = Poly.atom(("app", "floordiv", (
-                area0 - Poly.var("min_area"), other)))
-            want = Poly.atom(("app", "min", tuple(sorted(
-                {slack, size}, key=lambda p: repr(p.key()))))) \
-                - Poly.const(1)
-            ok_l = lim == want
-        ctx.ob("D17.1", fi, st, ok_l,
-               f"phase 2: cut limit = {show(lim)[:160] if isinstance(lim, Poly) else lim}"
-               "; must be min((current_area - min_area) // other "
-               "dimension, size) - 1",
-               construct="phase-2 cut limit")
+            sp = "self.space."
+            floor_area = (Poly.var(sp + "min_bins") - Poly.const(1)) * \
+                Poly.var(sp + "bin_width") * Poly.var(sp + "bin_height")
+            d2 = (mn - floor_area).const_value() if isinstance(
+                mn, Poly) else None
+            # cut_position in [1, cut_modulus]
+            a_cp = (cp - Poly.const(1)).as_atom()
+            cp_ok = a_cp is not None and a_cp[0] == "app" and \
+                a_cp[1] == "mod" and a_cp[2][1] == lim
+            if d1 is None or d2 is None or c2 is None:
+                detail_l = ("cannot write the cut limit as min(.., (current_"
+                            "area - min_area [+c]) // other_dimension - a, "
+                            "..) - b with min_area = (min_bins-1)*bin_area "
+                            f"+ c': limit = {show(lim)[:140]}, min_area = "
+                            f"{show(mn) if isinstance(mn, Poly) else mn}")
+            else:
+                d2e = d2 - c2
+                ok_l = cp_ok and d1 >= 0 and d2e >= 0 and d1 + d2e >= 1
+                detail_l = (
+                    f"cut_position <= cut_modulus <= slack // other - {d1} "
+                    f"with slack = current_area - (min_bins-1)*bin_area - "
+                    f"{d2e}: the removed area cut_position*other is at most "
+                    f"current_area - (min_bins-1)*bin_area - {d2e} - "
+                    f"{d1}*other; at least one unit must remain "
+                    f"(margins {d1} + {d2e} >= 1: "
+                    f"{'yes' if d1 + d2e >= 1 else 'NO - the area can drop to exactly (min_bins-1) bins'})"
+                    + ("" if cp_ok else "; cut_position is not "
+                       "`(.. % cut_modulus) + 1`"))
+        ctx.ob("D17.1", fi, st, ok_l, "phase 2: " + detail_l,
+               construct="phase-2 slack budget")
     n_mut = sum(1 for c in ast.walk(loop) if isinstance(c, ast.Call)
                 and isinstance(c.func, ast.Attribute)
                 and c.func.attr in SIZE_MUTATORS
@@ -408,6 +428,33 @@ def _phase2(ctx: Ctx, fi: FuncInfo, loop: ast.While, items: str,
            construct="phase-2 guard", nontrivial=False)
 
 
+def _budget_margin(lim: Poly, other: Poly, area0: Poly) \
+        -> tuple[Any, Any]:
+    """lim = min(.., floordiv(area0 - min_area + c2, other) + c1, ..) + c0
+    -> (-(c0 + c1), c2); (None, None) if not of that shape."""
+    from fractions import Fraction
+    c0 = lim.terms.get((), Fraction(0))
+    rest = lim - Poly.const(c0)
+    a = rest.as_atom()
+    if a is None or a[0] != "app":
+        return None, None
+    args = list(a[2]) if a[1] == "min" else [rest] \
+        if a[1] == "floordiv" else []
+    for arg in args:
+        c1 = arg.terms.get((), Fraction(0))
+        fa = (arg - Poly.const(c1)).as_atom()
+        if fa is not None and fa[0] == "app" and fa[1] == "floordiv":
+            num, den = fa[2]
+            if den != other:
+                return None, None
+            c2p = num - area0 + Poly.var("min_area")
+            c2 = c2p.const_value()
+            if c2 is None:
+                return None, None
+            return -(c0 + c1), c2
+    return None, None
+
+
 def _dataflow(ctx: Ctx, fi: FuncInfo, body: list[ast.stmt], call: ast.Call,
               phase1: ast.For, phase2: ast.While) -> None:
     be = BlockEval(ctx, fi)
@@ -416,11 +463,12 @@ def _dataflow(ctx: Ctx, fi: FuncInfo, body: list[ast.stmt], call: ast.Call,
     bw, bh = Poly.var(sp + "bin_width"), Poly.var(sp + "bin_height")
     nb = Poly.var(sp + "min_bins")
     mn = env.vars.get("min_area")
-    want = (nb - Poly.const(1)) * bw * bh + Poly.const(1)
-    ctx.ob("D17.2", fi, phase2, isinstance(mn, Poly) and mn == want,
+    want = (nb - Poly.const(1)) * bw * bh
+    off = (mn - want).const_value() if isinstance(mn, Poly) else None
+    ctx.ob("D17.2", fi, phase2, off is not None and off >= 0,
            f"min_area = {show(mn) if isinstance(mn, Poly) else mn}; must be "
-           "(min_bins - 1) * bin_area + 1 so that the area bound stays at "
-           "min_bins", construct="min_area")
+           "(min_bins - 1) * bin_area + c with c >= 0 (the margin itself is "
+           "judged together with the cut limit)", construct="min_area")
     ca = env.vars.get("current_area")
     ctx.ob("D17.2", fi, phase2, isinstance(ca, Poly) and ca == nb * bw * bh,
            f"current_area starts as {show(ca) if isinstance(ca, Poly) else ca}"
